@@ -325,6 +325,9 @@ var boundAccessors = map[string][]string{
 // through single-definition locals and simple getters.
 func canonBase(p *core.Program, f *core.Func, e ast.Expr, depth int) string {
 	info := f.Info()
+	if depth > 24 {
+		return types.ExprString(e)
+	}
 	e, _ = core.Resolve(info, f.Root().Body, e)
 	e = ast.Unparen(e)
 	switch x := e.(type) {
